@@ -204,6 +204,20 @@ fn main() {
             println!("{}", wl::memo::run(seed, shard, count).to_string());
             0
         }
+        "expert2" => {
+            quiet_panics();
+            let seed: u64 = args[2].parse().unwrap();
+            let shard: u64 = args[3].parse().unwrap();
+            let count: u64 = args[4].parse().unwrap();
+            println!("{}", wl::expert2::run(seed, shard, count).to_string());
+            0
+        }
+        "expert2-one" => {
+            quiet_panics();
+            let o = wl::expert2::run_history(args[2].parse().unwrap());
+            for a in &o.actions { println!("{a}"); }
+            if let Some(m) = o.violation { println!("VIOLATION C14 {m}"); 1 } else { 0 }
+        }
         "scoped" => {
             quiet_panics();
             let seed: u64 = args[2].parse().unwrap();
